@@ -283,7 +283,8 @@ func (cmd *mainCmd) Run(args []string) error {
 		content, err := os.ReadFile(filename)
 		vhook.Event("read", "file", filename, "ok", err == nil)
 		if err != nil {
-			return err
+			errors = append(errors, err)
+			continue
 		}
 		f, err := parser.ParseFile(fset, filename, content /* src */, parser.AllErrors|parser.ParseComments)
 		vhook.Event("parse", "file", filename, "ok", err == nil)
